@@ -527,6 +527,13 @@ def run(ctx):
         guarded(ctx, 'C06.L1', sj, e, lambda a: mentions_field(a, 'BuildConfig::disable_jobserver_client'), False,
                 'MAKEFLAGS is consulted only when the client is not disabled', construct='jobserver-client:created-although-disabled')
     check_midbuild_targets_scheduled(ctx, 'C06.L1', prog)
+    # a token that becomes available is noticed: the pollfd entry DoWork looks at for the jobserver is the jobserver's
+    from props.scan_common import check_pollfd_index
+    npf = check_pollfd_index(ctx, 'C06.L1', prog)
+    uses_pollfd = any((e.get('name') or '').endswith('::push_back') and mentions_var(e.get('recv'), 'fds')
+                      for f_ in prog.fns('SubprocessSet::DoWork') for e in f_.events('call'))
+    if uses_pollfd:         # the ppoll() variant; the pselect() variant has no positions to keep
+        ctx.check('C06.L1', npf >= 1, 'SubprocessSet::DoWork', 'pollfd:saved-index-absent', 'src/subprocess-posix.cc', '%d saved pollfd positions examined' % npf)
     # a completion that is already queued is handed out before the runner blocks again: DoWork() (ppoll without a
     # timeout) is never reached on the side where SubprocessSet::HasFinished() said yes
     wc_ = prog.fn('RealCommandRunner::WaitForCommandOrJobserverToken')
